@@ -21,6 +21,43 @@ RULE = ("(a) static: in every operation of generated projects (profiles args / k
         "argument list.")
 
 
+def _leaves(args, path=()):
+    out = []
+    for name, v in args:
+        if v[0] == "obj":
+            out += _leaves(v[1], path + (name,))
+        else:
+            out.append((path + (name,), v[0], v[1] if len(v) > 1 else None))
+    return out
+
+
+def collision_cause(a, b):
+    """Why two different (field, arguments) got the same key: the minimal differing element, not the case."""
+    import json
+    import re
+    try:
+        fa, fb = json.loads(a), json.loads(b)
+    except ValueError:
+        return "unknown"
+    if fa[0] != fb[0]:
+        return "different-fields"
+    la, lb = _leaves(fa[1]), _leaves(fb[1])
+    if [(x[0], x[1]) for x in la] == [(x[0], x[1]) for x in lb]:
+        diff = [(x, y) for x, y in zip(la, lb) if x[2] != y[2]]
+        if diff and all(x[1] == "str" and re.sub(r"[^A-Za-z0-9_]", "_", x[2]) == re.sub(r"[^A-Za-z0-9_]", "_", y[2]) for x, y in diff):
+            return "strings-that-differ-only-in-non-word-characters"
+        return "values-of-kind-" + "+".join(sorted({x[1] for x, _y in diff}))
+    return "string-that-imitates-the-key-structure"
+
+
+def resign_static(violations):
+    for v in violations:
+        if v["signature"].startswith("C12/same-key-for-different-field-or-arguments/"):
+            w = v["witness"]
+            v["signature"] = "C12/same-key-for-different-field-or-arguments/" + collision_cause(w.get("a", ""), w.get("b", ""))
+    return violations
+
+
 def run(ctx):
     cli = runner.build_cli()
     rt_common.configure(ctx, ctx.pick(2, 3))
@@ -33,7 +70,7 @@ def run(ctx):
     dy = e3.aggregate(results, "rt_common.analyze_c12_dynamic", "keys")
     mi = e3.aggregate(micro, "rt_common.analyze_c12_micro", "lists")
     c11 = e3.aggregate(results, "rt_common.analyze_c11_dynamic", "distinct")
-    v = st["violations"] + dy["violations"] + mi["violations"] + c11["violations"]
+    v = resign_static(st["violations"]) + dy["violations"] + mi["violations"] + c11["violations"]
     # one witness per signature is enough in the evidence; keep counts
     cov = {"evaluations": len(results), "distinct_nontrivial": min(x for x in (st["distinct"], dy["distinct"]) if x is not None),
            "rule": RULE, "samples": (mi["samples"][:2] + dy["samples"][:2]) or [{"note": "no sample"}],
